@@ -223,6 +223,62 @@ def _orch_unit(item) -> Partial:
     return p
 
 
+def _loop_unit(item) -> Partial:
+    """The same oracle through the runners' own loop steps: at every instant each runner performs what BaseRunner.run
+    does per iteration (report the heartbeats of its children, then the atomic-service check); who executed the
+    services is what the recorder standing in for trigger_loop_iteration saw."""
+    backend, n, interval_min, margin_min = item
+    from pynenc.runner.thread_runner import ThreadRunner
+
+    p = Partial()
+    env.reset_world()
+    conf = dict(atomic_service_interval_minutes=interval_min, atomic_service_spread_margin_minutes=margin_min,
+                atomic_service_check_interval_minutes=0.0, runner_considered_dead_after_minutes=1e6)
+    if backend == env.MEM:
+        one = env.make_app(backend, app_id="c12loop", **conf)
+        apps = [one] * n
+    else:
+        db = env.reuse_db("c12loop")
+        apps = [env.make_app(backend, app_id="c12loop", db=db, **conf) for _ in range(n)]
+    runners = []
+    ran: list = []
+    for k, app in enumerate(apps):
+        keep = getattr(app, "_runner_instance", None)
+        r = ThreadRunner(app)
+        app._runner_instance = keep
+        runners.append(r)
+    for app in {id(a): a for a in apps}.values():
+        app.trigger.trigger_loop_iteration = lambda: ran.append(env.CLOCK.now)  # type: ignore[method-assign]
+    interval_s, margin_s = interval_min * 60, margin_min * 60
+    base = env.CLOCK.now - (env.CLOCK.now % interval_s) + interval_s
+    env.CLOCK.frozen = True
+    env.CLOCK.now = base - 1.0
+    for r in runners:  # creation order = position; every runner has asked once before the observed cycles start
+        r.app.orchestrator.should_run_atomic_service(r.runner_context)
+        env.CLOCK.now = round(env.CLOCK.now + 0.01, 6)
+    cfg = dict(backend=backend, n=n, interval_min=interval_min, margin_min=margin_min, through="runner-loop")
+    series = []
+    cycles = 2
+    for t in _instants(n, interval_s, margin_s, 60, cycles, base):
+        env.CLOCK.now = t
+        auth = []
+        for k, r in enumerate(runners):
+            before = len(ran)
+            r._report_child_runner_heartbeats()
+            r._last_atomic_service_check_time = 0.0
+            r._check_atomic_services()
+            # the loop goes on iterating; until the check interval has passed its iterations only report heartbeats
+            r._report_child_runner_heartbeats()
+            p.count("evaluations")
+            if len(ran) > before:
+                auth.append(k)
+        series.append((t, tuple(auth)))
+    env.CLOCK.frozen = False
+    p.count("states")
+    _check_series(p, cfg, series, n, interval_s, margin_s, cycles, base)
+    return p
+
+
 def run(ctx: Ctx) -> None:
     nmax = 16 if ctx.thorough else 8
     grid = 3000 if ctx.thorough else 600
@@ -245,10 +301,13 @@ def run(ctx: Ctx) -> None:
     oitems += [(b, n, 1.0, 0.1, True) for b in env.BACKENDS for n in (2, 3)]
     for part in par.pmap(_orch_unit, oitems):
         ctx.merge(part)
+    for part in par.pmap(_loop_unit, [(b, n, 1.0, 0.1) for b in env.BACKENDS for n in (2, 3)]):
+        ctx.merge(part)
     ctx.rule = (
         "every (runner count, cycle length, margin, epoch offset) configuration x every instant of a "
         "dense grid plus all slot boundaries +-{0,1ulp,1ms}; all runners asked at the same instant; "
-        "states = configurations, transitions = instants, evaluations = can_run_atomic_service calls"
+        "states = configurations, transitions = instants, evaluations = can_run_atomic_service calls; also through both "
+        "orchestrators' should_run_atomic_service and through the runners' own loop steps (heartbeat report + atomic-service check)"
     )
     ctx.extra["traces_validated_against_impl"] = ctx.counters.get("transitions", 0)
     ctx.extra["runner_counts"] = f"1..{nmax}" + ("" if ctx.thorough else " (+ 9..16 with margin 0 at the slot boundaries)")
